@@ -394,6 +394,41 @@ def typekind(chk, F):
                 for x in walk(n["args"][0]):
                     if x.get("k") == "ref" and x.get("dk") == "enumerator" and x.get("enum", "").endswith("kind_t"):
                         constructible.add(x["name"])
+    # a kind handed on through a parameter (`make_primitive_type(kind)` -> `type_t::create_primitive(kind, ..)`): every
+    # enumerator callers pass at that position is constructible too (fixpoint over such forwarding functions)
+    fwd = {}        # function q -> set of parameter indices that reach the kind argument of a type constructor
+    changed = True
+    while changed:
+        changed = False
+        for fn in F.functions.values():
+            if fn.get("body") is None:
+                continue
+            pn = {p_["name"]: i for i, p_ in enumerate(fn.get("params", []))
+                  if (p_.get("ct") or p_.get("t") or "").replace("const ", "").endswith("kind_t")}
+            if not pn:
+                continue
+            for n in walk(fn["body"]):
+                sinks = []
+                if n.get("k") == "call" and (n.get("fn") or "").startswith("UTAP::type_t::create_"):
+                    sinks = n.get("args", [])
+                elif n.get("k") == "construct" and n.get("cls") == "UTAP::type_t" and n.get("args"):
+                    sinks = n["args"][:1]
+                elif n.get("k") == "call" and n.get("fn") in fwd:
+                    sinks = [a for i, a in enumerate(n.get("args", [])) if i in fwd[n["fn"]]]
+                for a in sinks:
+                    for x in walk(a):
+                        if x.get("k") == "ref" and x.get("dk") == "param" and x.get("name") in pn and \
+                                pn[x["name"]] not in fwd.setdefault(fn["q"], set()):
+                            fwd[fn["q"]].add(pn[x["name"]])
+                            changed = True
+    for fn in F.functions.values():
+        for n in walk(fn.get("body")):
+            if n.get("k") == "call" and n.get("fn") in fwd:
+                for i, a in enumerate(n.get("args", [])):
+                    if i in fwd[n["fn"]]:
+                        for x in walk(a):
+                            if x.get("k") == "ref" and x.get("dk") == "enumerator" and x.get("enum", "").endswith("kind_t"):
+                                constructible.add(x["name"])
     if len(constructible) < 20:
         raise AnalysisBroken("only %d constructible type kinds found" % len(constructible))
     n_sites = 0
